@@ -48,9 +48,10 @@ Definition chk_mapped (semi : bool) (k : nkind) (d : nat) (scalar : bool) (Fm : 
   let extra := (trig_hyps o ++ flat_map trig_hyps Fm)%list in
   let one fr := match ref_mapped_gen fr semi k d scalar Fm (map sx2t cs) with
                 | Some t => b2n (tequiv_roots extra o (TMul t mu)) | None => 2 end in
-  (* H2: when the first-row reference is proved equal the full one is not tried (it would only cost time) *)
+  (* H2: the first-row reference (what the library assembled before 8b3531a) is tried only when the classical one is
+     not proved, to classify the failure *)
   match k with
-  | H2 => let f := one true in if Nat.eqb f 0 then 10 else one false * 10 + f
+  | H2 => let r := one false in if Nat.eqb r 0 then 0 else r * 10 + one true
   | _ => one false * 10
   end.
 Definition chk_meas (d : nat) (Fm : list texpr) (meas : sx) : nat :=
@@ -321,7 +322,7 @@ def main(run, replay=None):
         index.append((name, [o]))
     coq_out = run.coq_eval_many(files, timeout=60 if quick else 300)
     stage["coq_cases"] = round(time.time() - t0, 1)
-    code, timeouts, timed_out = {}, 0, []
+    code, timeouts, timed_out, broken_files = {}, 0, [], []
     for name, own in index:
         rc, out = coq_out[name]
         vals = run.parse_list_output(out) if rc == 0 else None
@@ -331,16 +332,20 @@ def main(run, replay=None):
                 timeouts += 1
                 timed_out.append([(cases[o[0]]["dim"], cases[o[0]]["kind"], (cases[o[0]]["mapping"] or {}).get("cls", "symbolic"), o[1]) for o in own])
                 continue
-            run.report({"kind": "cases-file"}, "generated case file did not evaluate", {"file": name, "rc": rc, "log": out[-1500:]},
-                       found_input=False, theorem_or_case=name)
+            broken_files.append({"file": name, "rc": rc, "log": out[-1500:]})
             continue
         for o, v in zip(own, vals):
             code[o] = int(v)
 
+    if broken_files:      # one report for the run (e.g. a broken load path makes every file fail the same way)
+        run.report({"kind": "cases-file"}, "%d generated case file(s) did not evaluate" % len(broken_files),
+                   {"files": broken_files[:3], "count": len(broken_files)}, found_input=False,
+                   theorem_or_case="generated case files (Coq error, not a time-out)")
+
     # ---- decide
     stats = {"proved_equal_to_reference": 0, "checker_incomplete": 0, "model_agrees": 0, "model_unproved": 0,
              "error_class_agrees": 0, "error_class_differs": 0, "refused_not_implemented": 0, "refused_malformed": 0,
-             "oracle_checked": 0, "mapped_proved": 0, "mapped_checker_incomplete": 0, "measure_square_proved": 0,
+             "oracle_checked": 0, "mapped_proved": 0, "mapped_checker_incomplete": 0, "mapped_oracle_only": 0, "measure_square_proved": 0,
              "measure_unproved": 0, "logical_refused_not_implemented": 0, "coq_timeouts": timeouts,
              "unsupported_node": 0, "lowerings": 0, "h2_truncated_confirmed": 0}
     failing = []      # (ci, sig, msg, where)
@@ -442,6 +447,7 @@ def main(run, replay=None):
                 o = orc.get(key, {})
                 v = code.get((ci, key))
                 rr, f = (v // 10, v % 10) if v is not None else (1, 1)
+                skipped = quick and key == "tl" and c["mapping"].get("cls") in ("PolarMapping", "TargetMapping") and c["kind"] != "l2"
                 if o.get("ok") is not None:
                     stats["oracle_checked"] += 1
                 if o.get("ok") is False:
@@ -459,6 +465,8 @@ def main(run, replay=None):
                                             key, json.dumps(o.get("info"))), key))
                 elif rr == 0:
                     stats["mapped_proved"] += 1
+                elif skipped and o.get("ok") is True:
+                    stats["mapped_oracle_only"] += 1
                 else:
                     stats["mapped_checker_incomplete"] += 1
                     unproved.append((c["dim"], c["kind"], c["cls"], (c["mapping"] or {}).get("cls", "symbolic"), key, v))
